@@ -514,8 +514,21 @@ func failstore(dir string, n int, seed int64) {
 		_, calls := runFail(dir, n, seed, 0, false, mode)
 		for k := 1; k <= calls; k++ {
 			for _, after := range []bool{false, true} {
-				fc, _ := runFail(dir, n, seed, k, after, mode)
-				_ = out.Encode(fc)
+				// a case normally takes milliseconds; if it does not finish, writes are blocked
+				ch := make(chan failCase, 1)
+				go func() {
+					fc, _ := runFail(dir, n, seed, k, after, mode)
+					ch <- fc
+				}()
+				select {
+				case fc := <-ch:
+					_ = out.Encode(fc)
+				case <-time.After(20 * time.Second):
+					_ = out.Encode(failCase{Kind: "case", K: k, After: after, Mode: mode, Reported: true, CatalogOK: true, ReloadOK: true, Probe: "timeout",
+						ProbeErr: "the case did not finish within 20 s", Detail: "writes after the failed commit are blocked (the writer slot was not released)"})
+					_ = out.Encode(map[string]interface{}{"kind": "summary", "cases": total, "aborted": true})
+					os.Exit(0)
+				}
 				total++
 			}
 		}
